@@ -4,9 +4,13 @@
  * registered start/cleanup timers with the timer pump, and prints one operation per line followed by
  * what the implementation did.
  *
- *   C <kind h|s> <prod 0|1>                                            new case: never-checked checkable; prod=1: the
+ *   C <kind h|s> <prod 0|1|2>                                          new case: never-checked checkable; prod=1: the
  *                                                                      checkable and every downtime are created through
- *                                                                      ConfigObjectUtility::CreateObject / Downtime::AddDowntime
+ *                                                                      ConfigObjectUtility::CreateObject / Downtime::AddDowntime;
+ *                                                                      prod=2: additionally downtimes are scheduled through the
+ *                                                                      API action `schedule-downtime` (ApiActions::ScheduleDowntime;
+ *                                                                      those owned by a schedule still via AddDowntime) and removed
+ *                                                                      by users through `remove-downtime` (ApiActions::RemoveDowntime)
  *   A <id> <fixed> <start> <end> <dur> <trigBy> <owner> <now>          add downtime d<id> (entry_time = now)
  *   R <state> <te> <now>                                               ProcessCheckResult (exec start = end = te)
  *   T <now>                                                            clock := now, Timer::VerifFireDue(now)
@@ -31,6 +35,7 @@
 #include "icinga/checkcommand.hpp"
 #include "icinga/downtime.hpp"
 #include "icinga/notification.hpp"
+#include "remote/apiaction.hpp"
 #include "remote/configobjectutility.hpp"
 #include <algorithm>
 #include <map>
@@ -42,7 +47,10 @@ using namespace vh;
 static double g_Max = 0;        /* largest absolute virtual time used so far */
 static double g_Base = 0;       /* absolute time of relative 0 of the current case */
 static int g_CaseNo = 0;
-static bool g_Prod = false;
+static int g_Prod = 0;
+static std::map<int, String> g_Names;   /* id -> downtime name (API-scheduled downtimes get generated names) */
+static std::map<String, int> g_IdOf;
+static std::map<String, std::vector<int>> g_Pending; /* signals of a downtime whose generated name is not known yet */
 static Checkable::Ptr g_Obj;
 static String g_HostName, g_SvcShort;
 static std::map<std::pair<int, int>, int> g_Events; /* (ev, id) -> count, during the current op */
@@ -59,16 +67,26 @@ static void ClockRel(long long rel) { Clock(g_Base + (double)rel); }
 
 static String DtName(int id)
 {
+	auto it = g_Names.find(id);
+	if (it != g_Names.end())
+		return it->second;
 	return g_Obj->GetName() + "!d" + Convert::ToString(id);
 }
 
 static int IdOfName(const String& name)
 {
+	auto it = g_IdOf.find(name);
+	if (it != g_IdOf.end())
+		return it->second;
 	/* "<checkable>!d<id>" */
 	String prefix = g_Obj ? g_Obj->GetName() + "!d" : String();
 	if (!g_Obj || name.GetLength() <= prefix.GetLength() || name.SubStr(0, prefix.GetLength()) != prefix)
 		return -1;
-	return atoi(name.SubStr(prefix.GetLength()).CStr());
+	String rest = name.SubStr(prefix.GetLength());
+	for (char c : rest)
+		if (c < '0' || c > '9')
+			return -1; /* a generated (API) name whose UUID happens to begin with "d" */
+	return atoi(rest.CStr());
 }
 
 static void Note(int ev, int id) { g_Events[{ev, id}]++; }
@@ -84,7 +102,7 @@ static bool CreateViaApi(const Type::Ptr& type, const String& fullName, const Di
 	return true;
 }
 
-static void MakeChecker(bool host, bool prod)
+static void MakeChecker(bool host, int prod)
 {
 	g_CaseNo++;
 	g_Prod = prod;
@@ -137,6 +155,8 @@ static void EndCase()
 		} catch (...) { }
 	}
 	g_Ids.clear();
+	g_Names.clear();
+	g_IdOf.clear();
 	Host::Ptr host;
 	Service::Ptr service;
 	tie(host, service) = GetHostService(g_Obj);
@@ -155,7 +175,7 @@ static void EndCase()
 	g_Obj = nullptr;
 }
 
-static void BeginCase(bool host, bool prod)
+static void BeginCase(bool host, int prod)
 {
 	EndCase();
 	/* Make the start timer due at relative 1000: its m_Next is at most g_Max + 5, so a pump there fires
@@ -168,7 +188,7 @@ static void BeginCase(bool host, bool prod)
 	MakeChecker(host, prod);
 	ClockRel(1000);
 	g_Events.clear();
-	printf("C %c %d\n", host ? 'h' : 's', prod ? 1 : 0);
+	printf("C %c %d\n", host ? 'h' : 's', prod);
 }
 
 static void Observe(int rc)
@@ -188,6 +208,7 @@ static void Observe(int rc)
 		printf(" %d %d %d", kv.first.first, kv.first.second, kv.second);
 	printf("\n");
 	g_Events.clear();
+	g_Pending.clear();
 }
 
 static void DoAdd(int id, int fixed, long long start, long long end, long long dur, int trigBy, int owner, long long now)
@@ -199,7 +220,25 @@ static void DoAdd(int id, int fixed, long long start, long long end, long long d
 	Downtime::Ptr parent = trigBy ? Downtime::GetByName(DtName(trigBy)) : Downtime::Ptr();
 	if (!g_Ids.count(id) && !Downtime::GetByName(name)) { /* an id is used once per case */
 		try {
-			if (g_Prod) {
+			if (g_Prod == 2 && !owner) {
+				Dictionary::Ptr params = new Dictionary({
+					{ "author", "a" }, { "comment", Convert::ToString(id) }, { "start_time", g_Base + start },
+					{ "end_time", g_Base + end }, { "fixed", fixed != 0 }, { "duration", (double)dur }
+				});
+				if (parent) /* an unknown trigger name is answered with 404; a client passes none then */
+					params->Set("trigger_name", parent->GetName());
+				Dictionary::Ptr res = ApiAction::GetByName("schedule-downtime")->Invoke(g_Obj, params);
+				if ((int)res->Get("code") == 200) {
+					name = res->Get("name");
+					g_Names[id] = name;
+					g_IdOf[name] = id;
+					for (int ev : g_Pending[name])
+						g_Events[{ev, id}]++;
+					g_Pending.clear();
+				} else {
+					fprintf(stderr, "schedule-downtime: %s\n", JsonEncode(res).CStr());
+				}
+			} else if (g_Prod) {
 				Downtime::AddDowntime(g_Obj, "a", Convert::ToString(id), g_Base + start, g_Base + end, fixed != 0, parent,
 					(double)dur, owner ? "sd1" : "", "", "", name);
 			} else {
@@ -276,6 +315,11 @@ static void DoRemove(int id, int reason, long long now)
 	if (!Downtime::GetByName(name)) {
 		rc = 0;
 		Downtime::RemoveDowntime(name, false, reason == 2 ? DowntimeRemovedByConfigOwner : DowntimeRemovedByUser, "u");
+	} else if (g_Prod == 2 && reason != 2) {
+		Dictionary::Ptr res = ApiAction::GetByName("remove-downtime")->Invoke(Downtime::GetByName(name),
+			new Dictionary({ { "author", "u" } }));
+		int code = res->Get("code");
+		rc = code == 200 ? (Downtime::GetByName(name) ? 3 : 1) : (code == 400 ? 2 : 4);
 	} else {
 		try {
 			Downtime::RemoveDowntime(name, false, reason == 2 ? DowntimeRemovedByConfigOwner : DowntimeRemovedByUser, "u");
@@ -299,7 +343,7 @@ static void DoPause(int paused, long long now)
 
 struct GenDt { int id, fixed; long long start, end, dur; int trigBy, owner; bool added = false, gone = false; };
 
-static void GenCase(Rng& rng, bool thorough, bool prod)
+static void GenCase(Rng& rng, bool thorough, int prod)
 {
 	bool host = rng.coin();
 	BeginCase(host, prod);
@@ -403,7 +447,7 @@ static void Systematic(bool thorough)
 	for (size_t a = 0; a < grid.size(); a++)
 	for (size_t r = a; r < grid.size(); r++)
 	for (int order = 0; order < 2; order++) {
-		BeginCase(host != 0, false);
+		BeginCase(host != 0, 0);
 		int first = order ? state : 0;
 		DoResult(first, 1000, 1000);
 		DoAdd(1, fixed, S, E, 5, 0, 0, grid[a]);
@@ -441,10 +485,12 @@ int main(int argc, char **argv)
 	Downtime::OnDowntimeTriggered.connect([](const Downtime::Ptr& d) {
 		int id = IdOfName(d->GetName());
 		if (id >= 0) Note(3, id);
+		else if (g_Obj && d->GetCheckable() == g_Obj) g_Pending[d->GetName()].push_back(3);
 	});
 	Downtime::OnDowntimeRemoved.connect([](const Downtime::Ptr& d) {
 		int id = IdOfName(d->GetName());
 		if (id >= 0) Note(4, id);
+		else if (g_Obj && d->GetCheckable() == g_Obj) g_Pending[d->GetName()].push_back(4);
 	});
 
 	if (!CreateViaApi(CheckCommand::TypeInstance, "c05cmd", new Dictionary({{"command", new Array({"/bin/true"})}})))
@@ -452,7 +498,7 @@ int main(int argc, char **argv)
 
 	/* warm-up: the first Downtime::Start of the process creates the start/orphan timers */
 	{
-		MakeChecker(true, false);
+		MakeChecker(true, 0);
 		Downtime::Ptr d = new Downtime();
 		d->SetHostName(g_HostName);
 		d->SetName(DtName(0));
@@ -480,7 +526,7 @@ int main(int argc, char **argv)
 		Rng rng(seed);
 		int n = thorough ? 60000 : 6000;
 		for (int i = 0; i < n; i++)
-			GenCase(rng, thorough, i % 8 == 7); /* one case in eight through the production creation path */
+			GenCase(rng, thorough, i % 8 == 7 ? 1 : (i % 8 == 3 ? 2 : 0)); /* one case in eight through AddDowntime, one through the API actions */
 	} else if (mode == "ops") {
 		if (argc < 3) return 2;
 		FILE *f = fopen(argv[2], "r");
@@ -490,7 +536,7 @@ int main(int argc, char **argv)
 			if (line[0] == 'C') {
 				char k; int prod = 0;
 				if (sscanf(line, "C %c %d", &k, &prod) < 1) { fprintf(stderr, "bad C line\n"); rcode = 2; break; }
-				BeginCase(k == 'h', prod != 0);
+				BeginCase(k == 'h', prod);
 			} else if (!g_Obj && (line[0] == 'A' || line[0] == 'R' || line[0] == 'T' || line[0] == 'X' || line[0] == 'P')) {
 				fprintf(stderr, "operation before C line\n"); rcode = 2; break;
 			} else if (line[0] == 'A') {
